@@ -56,6 +56,7 @@ extern const int vf_nchecks;
 
 int wk_fail(vres *r, const char *sig, const char *fmt, ...);
 int wk_main(int argc, char **argv);
+int wk_sig_known(const char *sig);  /* does the signature match one of the --known-sig patterns (recorded findings of this check)? */
 extern const char *wk_variant;    /* variant name given on the command line */
 extern int wk_tier;
 extern int wk_verbose;   /* replay mode: checks may print details to stderr */
